@@ -646,16 +646,34 @@ def full(shape, v, dtype=None):
     return r
 
 
+def _like_dtype(x, dtype):
+    """the dtype numpy's *_like functions give the new array: the argument's own unless one is passed"""
+    if dtype is not None:
+        return dtype
+    a = x if isinstance(x, NDArr) else (NDArr(_obj(x)) if _is_arraylike(x) else None)
+    try:
+        return int if (a is not None and a.size and a.dtype.kind == "i") else None
+    except Exception:  # noqa
+        return None
+
+
 def zeros_like(x, dtype=None):
-    return full(_obj(x).shape, 0.0)
+    dt = _like_dtype(x, dtype)
+    return full(_obj(x).shape, 0 if _intlike(dt) else 0.0, dt)
 
 
 def ones_like(x, dtype=None):
-    return full(_obj(x).shape, 1.0)
+    dt = _like_dtype(x, dtype)
+    return full(_obj(x).shape, 1 if _intlike(dt) else 1.0, dt)
 
 
 def full_like(x, v, dtype=None):
-    return full(_obj(x).shape, v)
+    return full(_obj(x).shape, v, _like_dtype(x, dtype))
+
+
+def empty_like(x, dtype=None):
+    dt = _like_dtype(x, dtype)
+    return full(_obj(x).shape, 0 if _intlike(dt) else 0.0, dt)
 
 
 def arange(*args, dtype=None):
